@@ -658,6 +658,34 @@ func (fr *Frame) execRecv(st *State, x *ssa.UnOp, ch *Val) *Val {
 	for _, f := range facts {
 		fr.c.addFact(st, f)
 	}
+	for _, f := range allocFacts(v, st.ac) {
+		fr.c.addFact(st, f)
+	}
+	if fr.contract != nil && fr.contract.Opts["recv_nonnil"] == "yes" {
+		// environment assumption (listed): senders only put non-nil pointers into this queue
+		for _, t := range flatten(v) {
+			_ = t
+		}
+		var nn func(v *Val)
+		nn = func(v *Val) {
+			switch v.K {
+			case VScalar:
+				if v.T != nil {
+					if _, ok := v.T.Underlying().(*types.Pointer); ok {
+						fr.c.addFact(st, Neq(v.X, Num(0)))
+					}
+				}
+			case VIface:
+				fr.c.addFact(st, Neq(v.Tag, Num(0)))
+			case VStruct:
+				for _, f := range v.Fs {
+					nn(f)
+				}
+			}
+		}
+		nn(v)
+		fr.c.trusted["ASSUMED in "+shortFn(fr.fn.RelString(nil))+": values received from channels hold non-nil pointers / interfaces (opt recv_nonnil)"] = true
+	}
 	if x.CommaOk {
 		ok := Fresh("recvok", SBool)
 		return &Val{K: VTuple, T: x.Type(), Fs: []*Val{v, scalar(types.Typ[types.Bool], ok)}}
@@ -696,6 +724,16 @@ func (fr *Frame) execSelect(st *State, x *ssa.Select) *Val {
 		v, facts := freshVal(tt.At(i).Type(), "selrecv")
 		for _, f := range facts {
 			fr.c.addFact(st, f)
+		}
+		for _, f := range allocFacts(v, st.ac) {
+			fr.c.addFact(st, f)
+		}
+		if fr.contract != nil && fr.contract.Opts["recv_nonnil"] == "yes" && v.K == VScalar && v.T != nil {
+			if _, ok := v.T.Underlying().(*types.Pointer); ok {
+				// a successful receive (ok) yields what a sender put in: assumed non-nil (listed)
+				fr.c.addFact(st, Implies(vals[1].X, Neq(v.X, Num(0))))
+				fr.c.trusted["ASSUMED in "+shortFn(fr.fn.RelString(nil))+": values received from channels hold non-nil pointers / interfaces (opt recv_nonnil)"] = true
+			}
 		}
 		vals = append(vals, v)
 	}
